@@ -12,7 +12,7 @@ MOD = 'mc.props.c04'
 WL, Z = op.WL, 1.0
 
 # displacements in oversampled output samples (row, col): 0, sub-pixel, 1.6, 4, larger than the output; both signs; mixed
-DISPL = [(0, 0), (0.25, 0), (0, -1.6), (1.6, 0.25), (-4, 1.6), (4, 4), (30, 0), (0, -30), (-0.25, -0.25), (2.5, -3)]
+DISPL = [(0.0011, -0.0007), (0, 0), (0.25, 0), (0, -1.6), (1.6, 0.25), (-4, 1.6), (4, 4), (30, 0), (0, -30), (-0.25, -0.25), (2.5, -3)]
 REPS = ['opd', 'tilt_after', 'tilt_before', 'wavefront', 'fit', 'split', 'fit_then_tilt']
 
 
@@ -247,6 +247,8 @@ def chk_fit(case, acc, seed):
     nseg = masks.shape[0]
     amp = rm.generic_real(shape, seed, tag=11, lo=0.4, hi=1.0) * (masks.sum(0) > 0)
     opd = rm.generic_real(shape, seed, tag=case['payload'], lo=-0.3, hi=0.3) * WL + 0.37 * WL
+    if case['payload'] == 0:
+        opd = np.full(shape, 0.37 * WL)        # nothing but piston and the ramp below: the fitted angles are exactly the ramp's
     opd = opd + ramp(shape, dx, case['tx'], case['ty'])
     p = lentil.Pupil(amplitude=amp.copy(), opd=opd.copy(), mask=(masks[0] if nseg == 1 else masks).copy(), pixelscale=dx, focal_length=Z)
     opd0 = opd.copy()
@@ -255,11 +257,15 @@ def chk_fit(case, acc, seed):
         acc.violation('fit:inplace-returns-copy', case, 'fit_tilt(inplace=True) did not return the plane itself')
     if not case['inplace'] and (q is p or not np.array_equal(p.opd, opd0) or p.tilt):
         acc.violation('fit:copy-mutates-original', case, 'fit_tilt() modified the original plane')
-    if len(q.tilt) != nseg:
+    if len(q.tilt) not in (0, nseg):
         acc.violation('fit:tilt-count', case, f'{len(q.tilt)} tilt records for {nseg} segments')
         acc.case(case, outcome='fit-bad')
         return
     scale = np.max(np.abs(opd0))
+
+    class _Zero:           # no record at all is read as "no tilt removed" and judged by the same equations
+        x = 0.0
+        y = 0.0
     for k in range(nseg):
         t = ls_tilt(opd0, masks[k], dx)
         sel = masks[k] != 0
@@ -268,9 +274,9 @@ def chk_fit(case, acc, seed):
             # did it also remove the piston?
             pist = 'piston-removed' if rm.maxerr(q.opd[sel], (exp_after - t[0])[sel]) <= 1e-9 * scale else 'residual'
             acc.violation(f'fit:{pist}', dict(case, segment=k), f'OPD after fit_tilt differs from opd - LS tilt by {rm.maxerr(q.opd[sel], exp_after[sel]):.3e}')
-        T = q.tilt[k]
+        T = q.tilt[k] if q.tilt else _Zero
         # recorded angles: Tilt(x=tx, y=ty) stores .y = tx, .x = ty
-        if not np.allclose((T.y, T.x), (t[1], t[2]), rtol=1e-7, atol=1e-9 * scale / (max(shape) * min(op.pair(dx)))):
+        if not np.allclose((T.y, T.x), (t[1], t[2]), rtol=1e-7, atol=1e-9 * scale / (max(shape) * min(op.pair(dx))) * 1e-3):
             acc.violation('fit:recorded-angles', dict(case, segment=k), f'recorded ({T.y}, {T.x}) != least squares ({t[1]}, {t[2]})')
         # OPD plus recorded tilt unchanged
         back = q.opd + ramp(shape, dx, T.y, T.x)
@@ -332,6 +338,29 @@ def elem_displacement(name, z):
             a, fa = mid, fm
     x = 0.5 * (a + b)
     return (x, float(np.polyval(trace, x)))
+
+
+def chk_disp_reuse(case, acc, seed):
+    """one dispersive element instance asked for several wavelengths (a broadband loop): each answer must be the one a fresh
+    element gives for that wavelength"""
+    name = case['elem']
+    el = make_elem(name)
+    wls = [WL, WL * (1 + 2.0 ** -11), WL + 0.3e-9, WL - 0.45e-9, WL, WL * 1.25, WL + 0.3e-9]
+    for k, wl in enumerate(wls):
+        try:
+            got = el.shift(wavelength=wl, xs=0.0, ys=0.0)
+            fresh = make_elem(name).shift(wavelength=wl, xs=0.0, ys=0.0)
+        except Exception as e:
+            acc.violation(f'disp:{name}:reuse:raises:{type(e).__name__}', dict(case, step=k), repr(e))
+            break
+        g = (float(np.ravel(got[0])[0]), float(np.ravel(got[1])[0])); f = (float(np.ravel(fresh[0])[0]), float(np.ravel(fresh[1])[0]))
+        if not np.allclose(g, f, rtol=1e-9, atol=1e-15):
+            acc.violation(f'disp:{name}:depends-on-earlier-wavelengths', dict(case, step=k),
+                          f'displacement at {wl} m from a re-used element {g} differs from a fresh element {f}')
+            break
+        acc.transitions += 1
+    acc.cls('disp-reuse')
+    acc.case(case, outcome='disp-reuse')
 
 
 def chk_order(case, acc, seed):
@@ -469,7 +498,7 @@ def chk_hist(case, acc, seed):
     acc.case(case, outcome='hist')
 
 
-DISPATCH = {'rep': chk_rep, 'shift': chk_shift, 'fit': chk_fit, 'order': chk_order, 'hist': chk_hist}
+DISPATCH = {'dispreuse': chk_disp_reuse, 'rep': chk_rep, 'shift': chk_shift, 'fit': chk_fit, 'order': chk_order, 'hist': chk_hist}
 
 
 def t_rep(arg, acc):
@@ -497,6 +526,9 @@ def t_misc(arg, acc):
     tier, seed = arg['tier'], arg['seed']
     what = arg['what']
     if what == 'shift':
+        for name in ELEMS:
+            if ELEMS[name][0] == 'disp':
+                chk_disp_reuse({'kind': 'dispreuse', 'elem': name}, acc, seed)
         for du in (op.DU, op.DU2, (op.DU2[1], op.DU2[0])):
             for os_ in (1, 2, 3):
                 for z in (1.0, 2.5):
@@ -507,8 +539,8 @@ def t_misc(arg, acc):
         for pupil in pupil_shapes(tier) + [(6, 5)]:
             for aperture in ('mono', 'seg2'):
                 for dx in (op.DX, op.DX2):
-                    for payload in (41, 42, 43):
-                        for tx, ty in [(0, 0), (3e-5, 0), (0, -2e-5), (1e-5, 4e-5)]:
+                    for payload in (0, 41, 42, 43):
+                        for tx, ty in [(0, 0), (3e-5, 0), (0, -2e-5), (1e-5, 4e-5), (7e-9, -4e-9), (3e-12, 0)]:
                             for inplace in (False, True):
                                 acc.transitions += 1
                                 chk_fit({'kind': 'fit', 'pupil': pupil, 'aperture': aperture, 'dx': dx, 'payload': payload,
